@@ -688,6 +688,13 @@ class Env:
         self.types = {'Money': Money}
         self.units = {}
         self.Quantity = Quantity
+        self.shared_ns = {'__doc__': 'declared by the simulator'}
+
+    def namespace(self, name):
+        """The class namespace handed to the metaclass: a fresh dict, or -
+        as a table-driven generator of types would do - one and the same
+        dict object for many classes."""
+        return self.shared_ns if len(name) % 2 else {}
 
 
 def lib_quantum(q, salt):
@@ -773,7 +780,8 @@ def perform(env: Env, act):
             if act['quantum'] is not None:
                 kw['quantum'] = lib_quantum(act['quantum'], len(act['name']))
             cls = QuantityMeta(act.get('clsname') or act['name'],
-                               (Quantity,), {}, **kw)
+                               (Quantity,), env.namespace(act['name']),
+                               **kw)
             env.types[act['name']] = cls
             if cls.ref_unit is not None:
                 env.units[cls.ref_unit.symbol] = cls.ref_unit
@@ -783,10 +791,14 @@ def perform(env: Env, act):
                                             act['style'])}
             if act['ref_sym'] is not None:
                 kw['ref_unit_symbol'] = act['ref_sym']
+            elif act.get('auto_ref') and act.get('style') == 1:
+                # "no symbol given" spelled as an empty string
+                kw['ref_unit_symbol'] = ''
             if act['quantum'] is not None:
                 kw['quantum'] = lib_quantum(act['quantum'], len(act['name']))
             cls = QuantityMeta(act.get('clsname') or act['name'],
-                               (Quantity,), {}, **kw)
+                               (Quantity,), env.namespace(act['name']),
+                               **kw)
             env.types[act['name']] = cls
             info = {}
             if cls.ref_unit is not None:
